@@ -382,8 +382,24 @@ impl Universe {
                                 && !parent_changed.contains(&ks)
                             {
                                 ctx.rep.count("stale_read_imports_seen", 1);
+                                // two distinct shapes: the entry only READ the changed slot, or it
+                                // also rewrote it (to the parent's own value, else the overwrite
+                                // monitor below fires) - the repository revalidates them differently
+                                let also_rewrites = wrote[i].contains(&rs)
+                                    || strand.batches[f + 1 + i].iter().flatten().any(|b| {
+                                        crate::world::decode_intent(b).unwrap_or_default().iter().any(|o| {
+                                            matches!(o,
+                                                crate::world::MOp::SetAtt { k: kk, .. }
+                                                | crate::world::MOp::ClearAtt { k: kk }
+                                                | crate::world::MOp::Derive { k: kk, .. } if *kk == r)
+                                        })
+                                    });
                                 ctx.violation(
-                                    "C15:plan:imports-entry-derived-from-parent-changed-slot:node_att",
+                                    if also_rewrites {
+                                        "C15:plan:imports-entry-derived-from-parent-changed-slot:node_att:slot-also-rewritten-by-entry"
+                                    } else {
+                                        "C15:plan:imports-entry-derived-from-parent-changed-slot:node_att:slot-only-read"
+                                    },
                                     &format!(
                                         "decision {i} imports strand entry {} whose write n{k}.att = H(n{r}.att) was computed from n{r}.att = {} but the parent changed n{r}.att since the fork (parent now {}); revalidation reported {:?}; class {class}",
                                         f + 1 + i,
